@@ -63,9 +63,12 @@ def gen_scenario(rng, prof):
         timers = timers[:1]
     datas = ["=a", "=b", '="q"', "$"]
     if prof["json_payloads"]:
-        datas = ['="a"', "=1", '="q"', "$", "=true"]
+        # JSON texts that json.dumps reproduces verbatim, with every falsy value (0, false, null, "", [], {}) among them
+        datas = rng.sample(['="a"', "=1", '="q"', "=true", "=0", "=false", "=null", '=""', "=[]", "={}", "=[1]", "=[[]]", "=1.5", "=-3"], 4) + ["$", "$"]
     if rng.random() < prof["identical_msgs"]:
         datas = [datas[0]]
+
+    set_names = {}
 
     def action(p):
         r = rng.random()
@@ -77,8 +80,12 @@ def gen_scenario(rng, prof):
         r -= prof["p_local"]
         if r < prof["p_timer"]:
             kind = "O" if rng.random() < prof["p_once"] else "T"
-            return f"{kind}:{rng.choice(timers)}:{rng.choice([0, 1, 1, 2, 3])}"
-        return f"C:{rng.choice(timers)}"
+            name = rng.choice(timers)
+            set_names.setdefault(p, []).append(name)
+            return f"{kind}:{name}:{rng.choice([0, 1, 1, 2, 3])}"
+        # cancel mostly names this process sets somewhere (so that the cancel meets a pending, possibly withheld, timer)
+        pool = set_names.get(p) or timers
+        return f"C:{rng.choice(pool if rng.random() < 0.8 else timers)}"
 
     # connected programs: rules are generated for the triggers that callbacks and earlier rules produce
     cb_locals = []
@@ -130,7 +137,7 @@ def gen_scenario(rng, prof):
             if op == "local":
                 pp, tt = pending_locals.pop(0)
                 if loc[pp] not in crashed:
-                    out.append(f"cb local {pp} {tt} {rng.choice(['=a', '=b', chr(61) + chr(34) + 'x' + chr(34)] if not prof['json_payloads'] else [chr(61) + chr(34) + 'x' + chr(34), '=2'])}")
+                    out.append(f"cb local {pp} {tt} {rng.choice(['=a', '=b', chr(61) + chr(34) + 'x' + chr(34)] if not prof['json_payloads'] else [chr(61) + chr(34) + 'x' + chr(34), '=2', '=0', '=[]', '=null', '=false', '={}', '=' + chr(34) * 2])}")
             elif op == "crash":
                 n = rng.choice(nodes)
                 if n not in crashed and len(crashed) + 1 < nn:
@@ -262,6 +269,8 @@ def compare(impl, model, scen_lines, fields=ALL_FIELDS, noids=False, seq=True):
                 return f"run {k}: impl `{a['hdr']}` model `{b['hdr']}`"
             continue
         multi = k < len(runlines) and runlines[k].startswith("runfrom")
+        if multi and k > 0 and len(ri[k - 1]["C"]) <= 1 and len(rm[k - 1]["C"]) <= 1:
+            multi = False   # one start state: nothing depends on the order of start states
         if multi and "result=err" in a["hdr"] and "result=err" in b["hdr"]:
             # several start states of equal depth are visited in hash order by the code: which of them fails
             # first (and what was evaluated before) is not determined by the property
@@ -269,8 +278,11 @@ def compare(impl, model, scen_lines, fields=ALL_FIELDS, noids=False, seq=True):
         pa = [project(l, fields, noids) for l in a["E"]]
         pb = [project(l, fields, noids) for l in b["E"]]
         if multi or not seq:
-            pa = sorted(set(project(l, [f for f in fields if f in ("N", "E", "A")], noids) for l in a["E"]))
-            pb = sorted(set(project(l, [f for f in fields if f in ("N", "E", "A")], noids) for l in b["E"]))
+            # without a cache every path from every start state is explored, so also the trace-dependent observations
+            # (depth, predicate battery) form a determined set
+            sf = ("N", "E", "A", "P", "d") if (multi and " disabled " in runlines[k] + " ") else ("N", "E", "A")
+            pa = sorted(set(project(l, [f for f in fields if f in sf], noids) for l in a["E"]))
+            pb = sorted(set(project(l, [f for f in fields if f in sf], noids) for l in b["E"]))
         if pa != pb:
             for i, (x, y) in enumerate(zip(pa, pb)):
                 if x != y:
